@@ -12,7 +12,9 @@ EXPLANATION = (
     "cursor < chars().count() of the current line or directly follows an insertion at the cursor; other assignments are 0, "
     "a count, or a character-dimension helper result. R3 (PANIC): closed panic ledger of the key handler and the command "
     "splitter; sites needing 0 <= cursor <= count are conditional on R1+R2. R4: Enter returns only after the focused "
-    "history line was copied into the buffer; the splitter slices at find(';') offsets."
+    "history line was copied into the buffer; the splitter slices at find(';') offsets. R5 (DOM): Up/Down step history.index only under "
+    "a guard on it (or clamp it), and reset the cursor only under such a guard - a history key that does not change the focused entry leaves "
+    "the cursor alone, as a plain editor does."
 )
 NOT_DECIDED = "equality with a reference editor for all key sequences; that helper results are <= the character count (value-level)"
 
@@ -158,3 +160,48 @@ def run(ctx):
     if not ok:
         ctx.violation("splitter-delim", gn.file_line(), "the terminal reader does not split the submitted line at ';'")
     ctx.finish_rule()
+
+    # ------------------------------------------------------------------ R5
+    ctx.rule("C20.R5", "history keys move the cursor only when they change the focused entry", floor=2)
+    hist_writes = [(b, s) for b, i, s in hk.assigns() if fields_of(s["p"])[-2:] == ["history", "index"]]
+    ctx.need(len(hist_writes) >= 2, "writes of history.index in the key handler (Up and Down)")
+    dom = hk.dominators()
+    def index_guards(bb):
+        """conditions of dominating branches (with a unique edge towards bb) that mention history.index"""
+        out = []
+        for c, v in L0._dom_constraints(hk, bb, stable=False):
+            if "history.index" in expr_str(c, 400):
+                out.append((c, v))
+        return out
+    for b, s in hist_writes:
+        e = hk.rvalue_expr(s["r"], 10, stop={"named"})
+        ctx.instance(1)
+        step = e[0] in ("bin", "checked") and e[1] in ("Add", "Sub") and e[3] == ("const", 1) and "history.index" in expr_str(e[2])
+        clamp = e[0] == "call" and any(str(e[1]).endswith(x) for x in ("saturating_sub", "saturating_add", "::min", "::max"))
+        g = index_guards(b)
+        ok = (step and bool(g)) or clamp
+        ctx.oblig(ok, {"history.index :=": expr_str(e, 60), "guards": [expr_str(c, 60) for c, v in g]}, "step guarded by a comparison on history.index (or clamped)")
+        if not ok:
+            ctx.violation("history-step|%s" % (e[1] if step else "other"), sp_file_line(s.get("sp")),
+                          "history.index is assigned `%s` without a guard on history.index: the focus leaves [0, list.len()]" % expr_str(e, 60))
+    # cursor resets in the history arms: only under a guard on history.index (i.e. when the entry really changes)
+    arms_with_hist = {}
+    for sb, place, targets, oth in kit.discr_switches(hk, "lace::term::Key"):
+        for vi, tb in targets.items():
+            reg = kit.dominated_region(hk, tb)
+            if any(b in reg for b, s in hist_writes):
+                arms_with_hist[vi] = reg
+    ctx.need(len(arms_with_hist) >= 2, "Key arms that write history.index (found %d)" % len(arms_with_hist))
+    for vi, reg in sorted(arms_with_hist.items()):
+        for b, i, s in hk.assigns():
+            if b in reg and fields_of(s["p"])[-1:] == [cur]:
+                ctx.instance(1)
+                g = index_guards(b)
+                ok = bool(g)
+                ctx.oblig(ok, {"cursor reset at": sp_file_line(s.get("sp")), "under": [expr_str(c, 60) for c, v in g]}, "control-dependent on a comparison on history.index")
+                if not ok:
+                    ctx.violation("history-cursor-unconditional", sp_file_line(s.get("sp")),
+                                  "a history key moves the cursor even when the focused entry does not change (no guard on history.index): "
+                                  "pressing Up at the oldest entry jumps the cursor to the end of the line, and the next edit lands there")
+    ctx.finish_rule()
+
